@@ -75,7 +75,7 @@ _SHAPES = {
     1: ["L"],
     2: [["L", "L"]],
     3: [["L", ["L", "L"]], [["L", "L"], "L"]],
-    4: [[["L", "L"], ["L", "L"]], ["L", ["L", ["L", "L"]]]],
+    4: [[["L", "L"], ["L", "L"]], ["L", ["L", ["L", "L"]]], [[["L", "L"], "L"], "L"]],
     5: [[["L", "L"], ["L", ["L", "L"]]]],
 }
 
@@ -100,7 +100,7 @@ def _leaves(tree, out):
 
 
 def _params(tier):
-    ns = (1, 2) if tier == "quick" else (1, 2, 3, 4)
+    ns = (1, 2, 3) if tier == "quick" else (1, 2, 3, 4)
     return [dict(n=n, shape=i) for n in ns for i in range(len(_SHAPES[n]))]
 
 
@@ -152,7 +152,7 @@ def _depth(tree, leaf, d=0):
 
 @ob("C12", "altered_commitment_does_not_verify", quick=[dict(what=w) for w in ("control_path", "control_key", "control_byte0", "script", "output_key")],
     bound="two-leaf tree with symbolic leaf scripts; one byte (symbolic position within the named part) XOR-ed with a symbolic non-zero value",
-    stubs=_STUBS, functions=["btclib.script.taproot.check_output_pubkey"], timeout=900, weight=3)
+    stubs=_STUBS, functions=["btclib.script.taproot.check_output_pubkey", "btclib.script.engine.taproot_unwrap_script"], timeout=900, weight=3)
 def altered(ex, what):
     _install(ex)
     tree = _build(ex, _SHAPES[2][0], [0])
@@ -181,7 +181,15 @@ def altered(ex, what):
         ok = taproot.check_output_pubkey(q, sbytes, control)
     except BTClibValueError:
         ok = False
-    return {"altered_commitment_rejected": ok == False}   # noqa: E712
+    claims = {"altered_commitment_rejected": ok == False}   # noqa: E712
+    # the engine's own use of the proof: a script-path witness whose control block does not commit is refused, whatever its leaf version
+    from btclib.script.engine import taproot_unwrap_script
+    try:
+        taproot_unwrap_script(b"\x51\x20" + q, [b"\x01", sbytes, control])
+        claims["engine_refuses_the_altered_spend"] = False
+    except BTClibValueError:
+        claims["engine_refuses_the_altered_spend"] = True
+    return claims
 
 
 @ob("C12", "tweak_range_and_private_key_parity", quick=[dict()],
@@ -234,3 +242,19 @@ def unliftable(ex):
         return ex.refuse("BTClibValueError")
     # reaching a verdict means the key lifted (the stub's bit was 1) and the tweak was in range
     return {"verdict_is_bool": sor(r == True, r == False), "answered_only_for_liftable_key": ex.inputs_value("liftable!1") == 1}   # noqa: E712
+
+
+
+@ob("C12", "control_block_depth_limit_is_128", quick=[dict(m=m) for m in (0, 1, 127, 128, 129)],
+    bound="control blocks with m = 0, 1, 127, 128, 129 path hashes (control block concrete, the output key it is checked against symbolic): a verdict is returned for m <= 128 (BIP341's limit) and "
+          "the block is refused as too long for m = 129; real SHA-256 and real secp256k1 arithmetic run on the concrete parts",
+    functions=["btclib.script.taproot.check_output_pubkey"], min_ok=0, timeout=600)
+def depth_limit(ex, m):
+    ex.concrete_randomness()        # the point arithmetic runs on concrete operands; its blinding factor must be concrete too
+    q = ex.bytes("q", 32)
+    control = bytes([0xC0 + (m & 1)]) + _INTERNAL + b"\x05" * (32 * m)
+    try:
+        r = taproot.check_output_pubkey(q, b"\x51", control)
+    except BTClibValueError:
+        return {"refused_only_beyond_128_hashes": m > 128}
+    return {"answered_up_to_128_hashes": sand(m <= 128, sor(r == True, r == False))}   # noqa: E712
